@@ -177,6 +177,22 @@ impl VioBag {
 		});
 		e.truncate(KEEP_PER_SIG);
 	}
+	/// would a violation with this signature, deviation count and path length be kept? (cheap test
+	/// before the path is rendered: with millions of violations of a recorded finding the rendering
+	/// of every path dominated the run time)
+	fn wants(&self, sig: &str, dev: u32, len: usize) -> bool {
+		match self.by_sig.get(sig) {
+			None => true,
+			Some(e) if e.len() < KEEP_PER_SIG => true,
+			Some(e) => {
+				let w = &e[e.len() - 1];
+				(dev, len) <= (w.deviations, w.path.len())
+			}
+		}
+	}
+	fn count_only(&mut self) {
+		self.total += 1;
+	}
 	fn merge(&mut self, other: VioBag) {
 		let t = self.total + other.total;
 		for (_, vs) in other.by_sig {
@@ -312,6 +328,10 @@ pub fn explore<Sys: System>(sys: &Sys, lim: &Limits) -> Report {
 						rep.exempt += 1;
 					}
 					if let Some(f) = fail {
+						// length of the path = depth of the parent + 1
+						if !bag.wants(&f.sig, nd, depth as usize + 1) {
+							bag.count_only();
+						} else {
 						let (init, mut path) = path_of(&nodes, &acts, &labels, pid);
 						path.push(sys.show_act(&a));
 						bag.push(Violation {
@@ -321,6 +341,7 @@ pub fn explore<Sys: System>(sys: &Sys, lim: &Limits) -> Report {
 							failure: f,
 							deviations: nd,
 						});
+						}
 					}
 					if let Some(ns) = ns {
 						if let Some(k) = k {
@@ -530,13 +551,17 @@ pub fn explore_dfs<Sys: System>(sys: &Sys, lim: &Limits) -> Report {
 			acc.exempt += ex as u64;
 			path.push(a.clone());
 			if let Some(f) = fail {
-				acc.bag.push(Violation {
-					system: sys.name(),
-					init: init.to_string(),
-					path: path.iter().map(|a| sys.show_act(a)).collect(),
-					failure: f,
-					deviations: nd,
-				});
+				if !acc.bag.wants(&f.sig, nd, path.len()) {
+					acc.bag.count_only();
+				} else {
+					acc.bag.push(Violation {
+						system: sys.name(),
+						init: init.to_string(),
+						path: path.iter().map(|a| sys.show_act(a)).collect(),
+						failure: f,
+						deviations: nd,
+					});
+				}
 			}
 			if let Some(ns) = ns {
 				acc.states += 1;
